@@ -323,7 +323,7 @@ func c01hRun(t *testing.T, out *vh.Out, op string, port string) {
 	for id, a := range addrs {
 		bt.addrIdx[a] = id
 	}
-	origRcpts := c01OriginalRcpts(bt, addrs)
+	origRcpts := c01OriginalRcpts(bt, ids, addrs, true, "")
 	q.dsnPipeline = &c01Bounce{t: bt}
 	if err := q.start(1); err != nil {
 		t.Errorf("%s: %v", op, err)
